@@ -86,6 +86,7 @@ class Ctx:
         self.replay = replay
         self._distinct = set()
         self._vclass = {}
+        self._model_bins = {}
         self.keep_work = False
         self.notes = []
 
@@ -170,7 +171,11 @@ class Ctx:
 
     # ---------------------------------------------------------------- lean
     def lake_build(self, targets):
+        """Build Lean targets. The legacy target name `iora_model` is dropped: model drivers are one native executable per
+        component (`iora_model_<component>`), built lazily by model_argv()/lockstep so a check depends on its own modules only."""
+        targets = [t for t in targets if t != "iora_model"]
         with LeanLock():
+            gen_lake()
             t = time.time()
             rc, out = self.sh(["lake", "build"] + targets, cwd=LEAN, timeout=3000)
             self.log("lake build %s -> rc=%d (%.1fs)" % (" ".join(targets), rc, time.time() - t))
@@ -264,8 +269,28 @@ class Ctx:
         self.extra["leanchecker_modules"] = modules
         return ok
 
-    def model_bin(self):
-        return os.path.join(LEAN, ".lake", "build", "bin", "iora_model")
+    def model_bin(self, component=None):
+        """Path of the native model driver of `component` (built on first use)."""
+        if component is None:
+            raise RuntimeError("model_bin() needs the component name: drivers are per component (iora_model_<component>)")
+        return self.model_argv(component)[0]
+
+    def model_argv(self, component):
+        if component in self._model_bins:
+            return [self._model_bins[component]]
+        with LeanLock():
+            gen_lake()
+            t = time.time()
+            rc, out = self.sh(["lake", "build", "iora_model_" + component], cwd=LEAN, timeout=3000)
+            self.log("lake build iora_model_%s -> rc=%d (%.1fs)" % (component, rc, time.time() - t))
+        path = os.path.join(LEAN, ".lake", "build", "bin", "iora_model_" + component)
+        if rc != 0 or not os.path.exists(path):
+            errs = [l for l in out.splitlines() if l.startswith("error:")]
+            self.violation("proof", "model driver for component %s does not build: %s" % (component, "; ".join(errs[:3])[:400]),
+                           {"broken": {"theorem": "iora_model_" + component, "detail": "\n".join(errs[:20]) or out[-2000:]}})
+            raise ModelBuildError(component)
+        self._model_bins[component] = path
+        return [path]
 
     # ---------------------------------------------------------------- C++ harness
     def build_harness(self, src, name=None, flags=None, sanitize=True, defines=None, opt="-O1"):
@@ -315,7 +340,7 @@ class Ctx:
         for c in cases:
             bounds.append((len(all_ops), len(all_ops) + len(c["ops"])))
             all_ops += c["ops"]
-        model_out, mrc, merr = self.run_lines([self.model_bin(), mc], all_ops, timeout=timeout)
+        model_out, mrc, merr = self.run_lines(self.model_argv(mc), all_ops, timeout=timeout)
         if mrc != 0 or len(model_out) != len(all_ops):
             raise RuntimeError("model driver failed rc=%s lines=%d/%d: %s" % (mrc, len(model_out), len(all_ops), merr[-500:]))
         impl_out = [None] * len(all_ops)
@@ -396,6 +421,17 @@ class Ctx:
                     os.unlink(p)
         self.log("done: %d violation(s), %d known finding line(s), %.1fs" % (len(self.violations), len(self.known_lines), time.time() - self.t0))
         return rc
+
+
+class ModelBuildError(Exception):
+    pass
+
+
+def gen_lake():
+    sys.path.insert(0, os.path.join(VERIF, "tools"))
+    import gen_lake as g
+    g.LEAN = LEAN
+    return g.main()
 
 
 class LeanLock:
